@@ -91,7 +91,7 @@ func producer2(w sdf.Line2Writer, first int, batches []int, scratch []*sdf.Line2
 type scripted3 struct{ batches []int }
 
 func (s scripted3) Render(_ sdf.SDF3, out sdf.Triangle3Writer) {
-	producer3(out, 0, s.batches, make([]*sdf.Triangle3, 1100))
+	producer3(out, 0, s.batches, make([]*sdf.Triangle3, 4200))
 	out.Close()
 }
 func (s scripted3) Info(sdf.SDF3) string { return "scripted" }
@@ -99,7 +99,7 @@ func (s scripted3) Info(sdf.SDF3) string { return "scripted" }
 type scripted2 struct{ batches []int }
 
 func (s scripted2) Render(_ sdf.SDF2, out sdf.Line2Writer) {
-	producer2(out, 0, s.batches, make([]*sdf.Line2, 1100))
+	producer2(out, 0, s.batches, make([]*sdf.Line2, 4200))
 	out.Close()
 }
 func (s scripted2) Info(sdf.SDF2) string { return "scripted" }
@@ -221,7 +221,7 @@ func (sc scen) body() (func(), func() ([]int, string)) {
 				}
 				w := sdf.NewTriangle3Buffer(out)
 				if len(sc.Batches) == 1 {
-					producer3(w, 0, sc.Batches[0], make([]*sdf.Triangle3, 1100))
+					producer3(w, 0, sc.Batches[0], make([]*sdf.Triangle3, 4200))
 				} else {
 					var pwg vsync.WaitGroup
 					for p := range sc.Batches {
@@ -229,7 +229,7 @@ func (sc scen) body() (func(), func() ([]int, string)) {
 						pwg.Add(1)
 						vsync.Go(func() {
 							defer pwg.Done()
-							producer3(w, p*100000, sc.Batches[p], make([]*sdf.Triangle3, 1100))
+							producer3(w, p*100000, sc.Batches[p], make([]*sdf.Triangle3, 4200))
 						})
 					}
 					pwg.Wait()
@@ -269,7 +269,7 @@ func (sc scen) body() (func(), func() ([]int, string)) {
 			})
 			w := sdf.NewLine2Buffer(out)
 			if len(sc.Batches) == 1 {
-				producer2(w, 0, sc.Batches[0], make([]*sdf.Line2, 1100))
+				producer2(w, 0, sc.Batches[0], make([]*sdf.Line2, 4200))
 			} else {
 				var pwg vsync.WaitGroup
 				for p := range sc.Batches {
@@ -277,7 +277,7 @@ func (sc scen) body() (func(), func() ([]int, string)) {
 					pwg.Add(1)
 					vsync.Go(func() {
 						defer pwg.Done()
-						producer2(w, p*100000, sc.Batches[p], make([]*sdf.Line2, 1100))
+						producer2(w, p*100000, sc.Batches[p], make([]*sdf.Line2, 4200))
 					})
 				}
 				pwg.Wait()
@@ -671,6 +671,18 @@ func main() {
 	}
 	for _, s := range seqs([]int{0, 1, L - 1, L, L + 1, 2*L + 3}, 2) {
 		scens = append(scens, scen{Kind: "todxf", Batches: [][]int{s}, Bound: -1})
+	}
+	// every total up to a bound through the STL writer (round 8: a block-wise writer that loses its last block
+	// when the total is a multiple of a block size unrelated to the buffer threshold), as one batch and in batches of 100
+	for n := 1; n <= vlib.Pick(c, 1400, 4100); n++ {
+		scens = append(scens, scen{Kind: "tostl", Batches: [][]int{{n}}, Bound: -1})
+		if n%5 == 0 && n > 100 {
+			var bs []int
+			for left := n; left > 0; left -= 100 {
+				bs = append(bs, min(left, 100))
+			}
+			scens = append(scens, scen{Kind: "tostl", Batches: [][]int{bs}, Bound: -1})
+		}
 	}
 	// a longer render to the same path first: the sink must hold exactly the second render
 	for _, k := range []string{"tostl", "tosvg", "to3mf", "todxf"} {
